@@ -75,9 +75,19 @@ import (
 
 // ---------------------------------------------------------------- child
 
-type vsRand struct{ next uint64 }
+type vsRand struct {
+	next uint64
+	hook func() // runs once inside the next Uint64() call: something another server does between this draw and its use
+}
 
-func (r *vsRand) Uint64() uint64 { return r.next }
+func (r *vsRand) Uint64() uint64 {
+	if r.hook != nil {
+		h := r.hook
+		r.hook = nil
+		h()
+	}
+	return r.next
+}
 func (r *vsRand) Int() int       { return int(r.next) }
 
 type vsChanFactory struct{ chantrans.ChanTransportFactory }
@@ -220,6 +230,49 @@ func (c *vsChild) exec(f []string) (ans string) {
 			return vsErrLine(err)
 		}
 		return fmt.Sprintf("ok did %d", did)
+	case "SDR":
+		// two Drummer servers set the deployment id concurrently: the second server's whole setDeploymentID call lands between
+		// this server's random draw and its proposal.  Answer: "ok did2 <result of this server> <result of the other server>"
+		c.rnd.next = tk.u()
+		other := tk.u()
+		var rb uint64
+		var errb error
+		c.rnd.hook = func() {
+			srv2 := newDrummerServer(c.nh, &vsRand{next: other})
+			ctx2, cancel2 := c.ctx()
+			defer cancel2()
+			s2, err := srv2.getSession(ctx2, defaultShardID)
+			if err != nil {
+				errb = err
+				return
+			}
+			rb, errb = srv2.setDeploymentID(ctx2, s2)
+			cc2, ccancel2 := c.ctx()
+			_ = c.nh.SyncCloseSession(cc2, s2)
+			ccancel2()
+		}
+		session, err := c.srv.getSession(ctx, defaultShardID)
+		if err != nil {
+			c.rnd.hook = nil
+			return vsErrLine(err)
+		}
+		ra, err := c.srv.setDeploymentID(ctx, session)
+		hookRan := c.rnd.hook == nil
+		c.rnd.hook = nil
+		cc, ccancel := c.ctx()
+		_ = c.nh.SyncCloseSession(cc, session)
+		ccancel()
+		if err != nil {
+			return vsErrLine(err)
+		}
+		if errb != nil {
+			return vsErrLine(errb)
+		}
+		if !hookRan {
+			// this server did not draw at all (it found the id already set): the other server never ran
+			return fmt.Sprintf("ok did2 %d 0", ra)
+		}
+		return fmt.Sprintf("ok did2 %d %d", ra, rb)
 	case "RP":
 		return c.pbAnswer(c.srv.ReportAvailableNodeHost(ctx, vParseReport(tk)))
 	case "GS":
